@@ -222,3 +222,37 @@ Proof.
     unfold node. cbn [nth ex_heap]. destruct r; reflexivity.
   - vm_compute. split; [left; reflexivity|reflexivity].
 Qed.
+
+(* ---- get_variants returns its result ordered by UID *)
+From Coq Require Import Sorting.Sorted Permutation.
+From PM Require Import Proofs.StrOrder.
+
+Definition uid_le (h : heap) (x y : nat) : Prop := str_ltb (uid_str h y) (uid_str h x) = false.
+
+Lemma in_insert_by_uid_iff h r l x : In x (insert_by_uid h r l) <-> x = r \/ In x l.
+Proof. apply in_insert_by_uid. Qed.
+
+Lemma insert_by_uid_sorted h r l : StronglySorted (uid_le h) l -> StronglySorted (uid_le h) (insert_by_uid h r l).
+Proof.
+  induction l as [|x l IH]; intros H; cbn [insert_by_uid]; [repeat constructor|].
+  inversion H as [|? ? Hs Hall]; subst.
+  destruct (str_ltb (uid_str h r) (uid_str h x)) eqn:E.
+  - constructor; [exact H|]. constructor; [exact (str_ltb_asym _ _ E)|].
+    apply Forall_forall. intros y Hy. rewrite Forall_forall in Hall. specialize (Hall y Hy). unfold uid_le in *.
+    destruct (str_ltb (uid_str h y) (uid_str h r)) eqn:E2; [|reflexivity].
+    pose proof (str_ltb_trans _ _ _ E2 E). congruence.
+  - constructor; [exact (IH Hs)|]. apply Forall_forall. intros y Hy. apply in_insert_by_uid_iff in Hy.
+    destruct Hy as [->|Hy]; [exact E|]. rewrite Forall_forall in Hall. exact (Hall y Hy).
+Qed.
+
+Lemma sort_by_uid_sorted h l : StronglySorted (uid_le h) (sort_by_uid h l).
+Proof.
+  unfold sort_by_uid. assert (H : forall acc, StronglySorted (uid_le h) acc ->
+                                  StronglySorted (uid_le h) (fold_left (fun acc r => insert_by_uid h r acc) l acc)).
+  { induction l as [|r l IH]; intros acc Ha; [exact Ha|]. cbn [fold_left]. apply IH. apply insert_by_uid_sorted. exact Ha. }
+  apply H. constructor.
+Qed.
+
+Theorem get_variants_sorted fuel h c arch types recursive :
+  StronglySorted (uid_le h) (get_variants fuel h c arch types recursive).
+Proof. destruct fuel as [|f]; cbn [get_variants]; [constructor|apply sort_by_uid_sorted]. Qed.
